@@ -252,6 +252,40 @@ func buildGraph(ref *refGraph, vm *vertexMaker, r *rand.Rand) (*am.VerifGraph, [
 	return &g, vs
 }
 
+// longCycleRef builds, from the case index alone, a graph whose main feature
+// is one ring of 17-40 vertices.
+func longCycleRef(idx int) *refGraph {
+	lr := rand.New(&splitmix{s: uint64(idx)*0x9e3779b97f4a7c15 + 7})
+	ring := 17 + lr.Intn(24)
+	small := 2 + lr.Intn(4)
+	tail := lr.Intn(4)
+	n := ring + small + tail
+	perm := lr.Perm(n)
+	ref := newRef(n)
+	for i := 0; i < ring; i++ {
+		ref.w[perm[i]][perm[(i+1)%ring]] = 1 + lr.Intn(5)
+	}
+	for i := 0; i < small; i++ {
+		ref.w[perm[ring+i]][perm[ring+(i+1)%small]] = 1
+	}
+	// the small ring hangs off the big one (one way only), the tail is a path
+	ref.w[perm[lr.Intn(ring)]][perm[ring]] = 2
+	for i := 0; i < tail; i++ {
+		from := perm[lr.Intn(ring)]
+		if i > 0 {
+			from = perm[ring+small+i-1]
+		}
+		ref.w[from][perm[ring+small+i]] = 3
+	}
+	for k := lr.Intn(4); k > 0; k-- {
+		a, b := lr.Intn(ring), lr.Intn(ring)
+		if a != b {
+			ref.w[perm[a]][perm[b]] = 4
+		}
+	}
+	return ref
+}
+
 func randomRef(r *rand.Rand, maxN int) *refGraph {
 	n := 1 + r.Intn(maxN)
 	ref := newRef(n)
@@ -1043,6 +1077,11 @@ func runC19(c *CaseCtx) (res CaseResult) {
 			trace = append(trace, fmt.Sprintf("%s.AddEdge(%d,%d)", h.name, a, b))
 		case op <= 6:
 			a, b, w := pick(r, present), pick(r, present), r.Intn(10)
+			if c.Idx%5 == 2 && k%4 == 1 {
+				// weights are ints: large ones are stored and handed back as
+				// they are (non-negative: the histories also run searches)
+				w = []int{1 << 40, 1 << 35, 1<<31 + 7, 1<<32 + 9}[(k/4)%4] + w
+			}
 			if hubEdge {
 				if c.Idx%48 == 5 {
 					a = 0
@@ -1218,6 +1257,28 @@ func checkTraversals(ref *refGraph, vm *vertexMaker, r *rand.Rand, res *CaseResu
 			}
 			h.Add(x)
 			h.Remove(x)
+		}
+		// every sink gets an out-edge and loses it again, every source an
+		// in-edge (their edge sets become non-empty and empty again)
+		for a := 0; a < n; a++ {
+			outs, ins := 0, 0
+			for b := 0; b < n; b++ {
+				if ref.w[a][b] >= 0 {
+					outs++
+				}
+				if ref.w[b][a] >= 0 {
+					ins++
+				}
+			}
+			b := (a + 1) % n
+			if outs == 0 && b != a {
+				g.AddEdgeWeighted(vs[a], vs[b], 2)
+				g.RemoveEdge(vs[a], vs[b])
+			}
+			if ins == 0 && b != a && ref.w[b][a] < 0 {
+				g.AddEdgeWeighted(vs[b], vs[a], 2)
+				g.RemoveEdge(vs[b], vs[a])
+			}
 		}
 		res.obs("traversals_checked_after_a_history", 1)
 	}
@@ -1449,6 +1510,13 @@ func runC20(c *CaseCtx) (res CaseResult) {
 		return runLiveGraph(c, r, "C20")
 	}
 	ref := randomRef(r, 10)
+	if c.Idx%41 == 17 {
+		// a LONG cycle (17-40 vertices in a ring, shuffled numbering) with a
+		// few chords, side branches and a second, smaller ring hanging off it:
+		// searches go dozens of vertices deep before a component closes
+		ref = longCycleRef(c.Idx)
+		res.obs("long_cycle_graphs", 1)
+	}
 	vm := &vertexMaker{kind: r.Intn(nVertexKinds)}
 	if c.Idx%13 == 5 {
 		vm.kind = kindUncomparable
